@@ -7,6 +7,7 @@
 From Coq Require Import List ZArith Bool Lia Permutation.
 From IpfsLog Require Import Model.System Proofs.OmapProofs Proofs.Inv Proofs.JoinProofs Proofs.SysProofs Proofs.StepProofs
      Proofs.PInv Proofs.PJoin Proofs.PSys.
+From IpfsLog Require Import Proofs.POpen.
 Import ListNotations.
 Open Scope Z_scope.
 
@@ -70,6 +71,24 @@ Proof.
   exact (join_any_bound_admits_only_valid _ l o size l' UO (IL r l L) (IL src o O) J).
 Qed.
 
+(* the same two facts for replicas of histories in which logs are re-opened over selections of entries
+   ([owf], Proofs/POpen.v) *)
+Theorem C06_heads_are_own_verified_entries_reopened ops r l o size l' :
+  owf ops -> nth_error (s_logs (run ops)) r = Some l -> size < 0 ->
+  join l o false size = (l', Ok tt) ->
+  forall k v, In (k, v) (l_heads l') ->
+    In (k, v) (l_entries l') /\
+    (In (k, v) (l_entries l) \/ (e_logid v = l_id l /\ entry_ok l v = true)).
+Proof. intros W L. exact (ojoin_heads_are_own_verified_entries ops r l W L o size l'). Qed.
+
+Theorem C06_any_merge_admits_only_valid_reopened ops r src l o size l' :
+  owf ops -> nth_error (s_logs (run ops)) r = Some l -> nth_error (s_logs (run ops)) src = Some o ->
+  join l o false size = (l', Ok tt) ->
+  forall k v, In (k, v) (l_entries l') ->
+    In (k, v) (l_entries l) \/
+    (e_logid v = l_id l /\ entry_ok l v = true /\ In (k, v) (l_entries o) /\ ~ In k (okeys (l_entries l))).
+Proof. intros W L. exact (ojoin_any_bound_admits_only_valid ops r l W L src o size l'). Qed.
+
 (* a denied append changes neither entries nor heads (only the clock has ticked) *)
 Theorem C06_denied_append_unchanged l payload pc h l' :
   append l payload pc h = (l', Err EDenied) ->
@@ -105,3 +124,5 @@ Print Assumptions C06_any_merge_admits_only_valid.
 Print Assumptions C06_denied_append_unchanged.
 Print Assumptions C06_append_denied_iff.
 Print Assumptions C06_nonvacuous.
+Print Assumptions C06_heads_are_own_verified_entries_reopened.
+Print Assumptions C06_any_merge_admits_only_valid_reopened.
